@@ -245,7 +245,15 @@ package system
 //@   requires P1: a != nil && a.execute != nil
 //@   opt preserves heap(system.addresser), mem(net.Interface)
 //@   assigns everything
-//@   at call routesByIndex(ra, ridx) (rrs, rerr): ghost.failed = ghost.failed || rerr != nil
+//@   ghost local total Int
+//@   ghost local asked (Array Int Bool)
+//@   ghost local ifis Slice
+//@   at call Interfaces() (xs, xerr): ghost.ifis = xs
+//@   at call routesByIndex(ra, ridx) (rrs, rerr): assert G1 [C15]: ridx == ranged(1)[rangeindex + 1].Index && bitand(ranged(1)[rangeindex + 1].Flags, 4) != 0 && bitand(ranged(1)[rangeindex + 1].Flags, 1) != 0 ; ghost.failed = ghost.failed || rerr != nil ; ghost.total = ghost.total + len(rrs) ; ghost.asked = setAdd(ghost.asked, rangeindex + 1)
+//@   loop 1 invariant L1 [C15]: len(routes) == ghost.total
+//@   loop 1 invariant L2 [C15]: ranged(1) == typed(ghost.ifis, "[]net.Interface") && forall(k, 0, rangeindex + 1, bitand(ranged(1)[k].Flags, 4) != 0 && bitand(ranged(1)[k].Flags, 1) != 0 ==> setHas(ghost.asked, k))
+//@   ensures E3 [C15]: result1 == nil ==> forall(k, 0, len(typed(ghost.ifis, "[]net.Interface")), bitand(typed(ghost.ifis, "[]net.Interface")[k].Flags, 4) != 0 && bitand(typed(ghost.ifis, "[]net.Interface")[k].Flags, 1) != 0 ==> setHas(ghost.asked, k))
+//@   ensures E2 [C15]: result1 == nil ==> len(result0) == ghost.total
 //@   loop 1 invariant L0 [C15]: !ghost.failed && a != nil && a.execute != nil && forall(k, 0, len(ranged(1)), 0 < ranged(1)[k].Index && ranged(1)[k].Index <= 2147483647)
 //@   ensures E1 [C15]: ghost.failed ==> result1 != nil && len(result0) == 0
 
